@@ -119,11 +119,11 @@ def run(ctx):
     rng = random.Random(ctx.seed)
     traces, meta = [], []
     with G.quiet_gc():
-        for _ in range(80 if quick else 2000):
+        for _ in range(120 if quick else 2000):
             t, info = G.insert_trace(rng, variant, size=rng.randint(3, 10 if quick else 14))
             traces.append(t)
             meta.append(info)
-        for i in range(60 if quick else 1500):
+        for i in range(90 if quick else 1500):
             user = USERS[i % 3]
             t, src = G.user_trace(rng, user, variant, size=rng.randint(4, 12))
             traces.append(t)
